@@ -154,6 +154,19 @@ theorem counterexample_set_items_reordered :
     ¬ UAgrees (Update.step small [] gK 1 ["A"] sReordered) (Spec.apply small [] gK 1 sReordered) := by
   decide
 
+/-- the property map of a deleted relationship identity survives in the store (`mult = 0` record) and is found
+    again when the identity is re-created: after `DELETE r` of (0)-[:T {w: 4}]->(1), `CREATE (a)-[:T]->(b)` brings
+    w = 4 back (root cause: C06) -/
+def gDead : Graph := ⟨[⟨0, ["A"], []⟩, ⟨1, ["B"], []⟩], [⟨⟨0, "T", 1⟩, 0, [("w", .int 4)]⟩]⟩
+def sRecreate : Stmt :=
+  ⟨[.match_ false [⟨⟨some "a", ["A"], []⟩, []⟩, ⟨⟨some "b", ["B"], []⟩, []⟩]],
+   [.create [⟨⟨some "a", [], []⟩, [(⟨none, ["T"], .out, []⟩, ⟨some "b", [], []⟩)]⟩]]⟩
+
+theorem counterexample_deleted_rel_props_resurrect :
+    ¬ UAgrees (Update.step small [] gDead 2 ["A", "B", "T"] sRecreate)
+      (Spec.apply small [] (Update.live gDead) 2 sRecreate) := by
+  decide
+
 /-- hence the full-strength statement fails -/
 theorem C12_full_false : ¬ C12_full := by
   intro h
